@@ -155,7 +155,7 @@ let verdict case impl =
       match obs with
       | Bad s -> "diff runner-reported " ^ s
       | Obs obs ->
-        if not coherent then "ok skipped incoherent-snapshot"
+        if not coherent then "error incoherent-pools-field"
         else if not (cluster_wfb cl (List.map (fun x -> x.id) st.nodes)) then "error ill-formed-cluster"
         else if route_ok cl cfg stm values obs then begin
           (* which part of the property this request exercised (counted in the evidence) *)
